@@ -16,17 +16,17 @@ import (
 // forms, an optional racing local Close, and (fault budget) a failing request write.
 
 type c02call struct {
-	form   int
-	call   *rpc.Call
-	done   chan *rpc.Call
-	ret    bool  // blocking form returned
-	err    error // error returned by the blocking form
-	reply  []byte
-	args   []byte
-	first  string // Error at the first signal
-	nsig   int    // signals observed on Done (async forms)
-	tag    byte
-	rawOK  bool
+	form  int
+	call  *rpc.Call
+	done  chan *rpc.Call
+	ret   bool  // blocking form returned
+	err   error // error returned by the blocking form
+	reply []byte
+	args  []byte
+	first string // Error at the first signal
+	nsig  int    // signals observed on Done (async forms)
+	tag   byte
+	rawOK bool
 }
 
 const (
